@@ -44,7 +44,8 @@ def confirm(sd):
     print(json.dumps(res))
     return 0 if res['confirmed'] else 1
 
-def run(sd, pid, tier='quick'):
+def run(sd, pid, tier="quick"):
+    sd = os.path.abspath(sd)
     d = mkwt(os.path.join(sd, 'patch.diff'))
     try:
         env = dict(os.environ, NEATVI_REPO=d, VERIF_NOEVIDENCE='1')
